@@ -93,6 +93,8 @@ def show(n):
         return ('out ' if n[1] == COV else 'in ' if n[1] == CONTRA else 'inv ') + show(n[2])
     if k == '*':
         return '*'
+    if k == 'K':
+        return 'capture(%s)' % n[1]
     return repr(n)
 
 
@@ -105,6 +107,8 @@ def key(n):
         return ('P', n[1], tuple(key(a) for a in n[2]))
     if k == 'W':
         return ('W', n[1], key(n[2]))
+    if k == 'K':
+        return ('K', n[1])
     return n
 
 
@@ -293,6 +297,10 @@ class Ref:
             return True
         if s[0] in ('W', '*', 'C', 'O') or t[0] in ('W', '*', 'C', 'O'):
             return False
+        if s[0] == 'K':                           # captured projection: only its upper bound is known from above
+            return s[3] is not None and self.sub(s[3], t)
+        if t[0] == 'K':                           # ... and only its lower bound from below
+            return t[2] is not None and self.sub(s, t[2])
         if s[0] == 'V':
             return s[3] is not None and self.sub(s[3], t)
         for u in self.supers(s):
@@ -319,30 +327,57 @@ class Ref:
             return va in (INV, COV) and self.sub(xa, xb)
         return va in (INV, CONTRA) and self.sub(xb, xa)
 
-    def within(self, a, b):
-        """does argument a respect the (already substituted) bound b?  Returns (under_every_reading, under_some_reading).
-        A projection argument (out and in alike) is judged by its projected type.  b itself is a projection only when the
-        declared bound is a bare variable whose own argument is a projection; the statement does not say what "subtype of
-        `out X` / `in X`" means there, so the admissible readings are evaluated side by side:
-          `out X`  = an unknown subtype of X : (for-all) only Nothing, or a covariant projection below X, is safely under
-                     it ; (containment / upper approximation) anything below X ;
-          `in X`   = an unknown supertype of X : (for-all) anything below X ; (containment) anything above X.
-        A result is a violation only if it fails under every reading; a request set is consistent only if a completion
-        passes under every reading."""
+    def within(self, a, bound, sigma):
+        """does argument a respect the declared bound `bound` under the assignment sigma of the other parameters?
+        Returns (under_every_reading, under_some_reading).  A projection argument (out and in alike) is judged by its
+        projected type.  If no argument that the bound mentions is a projection there is one reading: a <: bound[sigma].
+        Otherwise the statement does not fix what "the bound after substituting a projection" means, and the admissible
+        readings are evaluated side by side:
+          (structural)    substitute the projection as it is and use containment; a bare `out X` bound then admits
+                          (for-all) only Nothing or a covariant projection below X, or (containment) anything below X;
+                          a bare `in X` bound admits (for-all) anything below X or (containment) anything above X;
+          (capture)       the projection stands for an unknown type S with S <: X (out) or X <: S (in); the argument
+                          must be below the bound for every such S;
+          (variance-free) the projection is replaced by its projected type.
+        A result is a violation only if it fails under every reading; a request set counts as consistent only if a
+        completion passes under every reading."""
         x = a[2] if a[0] == 'W' else a
+        used = variables(bound)
+        proj = [k for k in used if k in sigma and sigma[k][0] in ('W', '*')]
+        if not proj:
+            if a[0] == '*':
+                return (False, True)
+            r = self.sub(x, subst(bound, sigma))
+            return (r, r)
         if a[0] == '*':
-            return (b[0] in ('top', '*'), True)
+            return (False, True)
+        # structural
+        b = subst(bound, sigma)
         if b[0] == '*':
-            return (x[0] == 'N', True)
-        if b[0] == 'W':
+            s_every, s_some = (x[0] == 'N', True)
+        elif b[0] == 'W':
             if b[1] == COV:
-                lenient = self.sub(x, b[2])
-                strict = lenient if (a[0] == 'W' and a[1] == COV) else x[0] == 'N'
-                return (strict, lenient)
-            f, c = self.sub(x, b[2]), self.sub(b[2], x)
-            return (f and c, f or c)
-        r = self.sub(x, b)
-        return (r, r)
+                s_some = self.sub(x, b[2])
+                s_every = s_some if (a[0] == 'W' and a[1] == COV) else x[0] == 'N'
+            else:
+                f, c = self.sub(x, b[2]), self.sub(b[2], x)
+                s_every, s_some = (f and c, f or c)
+        else:
+            s_every = s_some = self.sub(x, b)
+        # capture
+        cap = dict(sigma)
+        for k in proj:
+            v = sigma[k]
+            cap[k] = ('K', k, None, None) if v[0] == '*' else (
+                ('K', k, None, v[2]) if v[1] == COV else ('K', k, v[2], None) if v[1] == CONTRA else v[2])
+        r_cap = self.sub(x, subst(bound, cap))
+        # variance-free
+        free = dict(sigma)
+        for k in proj:
+            v = sigma[k]
+            free[k] = ('top',) if v[0] == '*' else v[2]
+        r_free = self.sub(x, subst(bound, free))
+        return (s_every and r_cap and r_free, s_some or r_cap or r_free)
 
 
 # ----------------------------------------------------------------------------------------------------------------------
@@ -385,10 +420,16 @@ class Checker:
         self.depth = 0
         self.stats = {'projections': 0, 'requests_kept': 0, 'bounds_checked': 0, 'nested': 0, 'retro': 0}
         self.samples = []
+        self.collect = None             # debugging aid: every distinct violation signature
 
     # -- helpers -----------------------------------------------------------------------------------------------------
     def report(self, kind, api, **kw):
         name = 'bounded[%s]' % kind
+        if self.collect is not None:
+            c = kw.get('call', {})
+            sig = (name, api, tuple(c.get('parameters', ())), tuple(sorted(c.get('requested', {}).items())))
+            if sig not in self.collect:
+                self.collect[sig] = dict(kw, input=self.current)
         if name in self.violations:
             return
         d = dict(check=name, function=QUAL[api])
@@ -516,12 +557,15 @@ class Checker:
             if np[3] is None:
                 continue
             self.stats['bounds_checked'] += 1
-            b = subst(np[3], {k: v for k, v in sigma.items() if k != names[i]})
-            every, some = ref.within(nargs[i], b)
+            others = {k: v for k, v in sigma.items() if k != names[i]}
+            b = subst(np[3], others)
+            every, some = ref.within(nargs[i], np[3], others)
             if every != some:
                 self.ambiguous += 1
             if not some:
-                fails.append(('bound', i, 'argument %s of %s is not within the bound %s (declared %s)'
+                fails.append(('bound/' + ('requested-parameter' if i in req and key(req[i]) == key(nargs[i]) or (
+                    i in req and nargs[i][0] == 'W' and key(nargs[i][2]) == key(req[i])) else 'chosen-parameter'),
+                              i, 'argument %s of %s is not within the bound %s (declared %s)'
                               % (show(nargs[i]), names[i], show(b), show(np[3]))))
         for i, r in req.items():
             a = nargs[i]
@@ -531,7 +575,7 @@ class Checker:
             if a[0] == 'W' and r[0] not in ('W', '*') and key(a[2]) == key(r):
                 self.stats['requests_kept'] += 1
                 continue                      # wrapped; whether the projection is permitted is the variance clause
-            fails.append(('kept', i, 'requested %s := %s but the result has %s' % (names[i], show(r), show(a))))
+            fails.append(('kept/' + ('projection-request' if r[0] in ('W', '*') else 'plain-request'), i, 'requested %s := %s but the result has %s' % (names[i], show(r), show(a))))
         trivial = not (req or ec is not None or any(np[3] is not None or np[2] != INV for np in nparams))
         ikey = (api, con_name, tuple(nparams), tuple(sorted((i, key(r)) for i, r in req.items())),
                 None if ec is None else tuple(sorted((k.name, tuple(v)) for k, v in ec)), for_tc, dis,
@@ -634,8 +678,7 @@ class Checker:
                     continue
                 if any(v in names and names.index(v) not in assign for v in variables(np[3])):
                     continue                      # a parameter the bound mentions is still open
-                b = subst(np[3], {k: v for k, v in sig.items() if k != names[i]})
-                if not ref.within(assign[i], b)[0]:
+                if not ref.within(assign[i], np[3], {k: v for k, v in sig.items() if k != names[i]})[0]:
                     return False
             return True
 
